@@ -311,6 +311,7 @@ BindAll(ps, vs, i, st) == IF i > Len(ps) THEN st ELSE BindAll(ps, vs, i + 1, Set
 \* one loop scope for all iterations; v of the result is the loop's value (Chunks)
 ForIter(e, xs, i, out, st) ==
   IF i > Len(xs) THEN R("ok", Chunks(out), <<>>, st, FALSE, FALSE) ELSE
+  IF xs[i].t = "endless" THEN Unspec(st) ELSE
   LET st1 == SetTop(SetTop(st, IF e.kn = "" THEN "_" ELSE e.kn, I(i - 1)), e.vn, xs[i])
       r   == ExecBlock(e.body, 1, R("ok", Nil, <<>>, st1, FALSE, FALSE)) IN
   CASE Bad(r)     -> NoUnk(r)
@@ -438,7 +439,9 @@ CallGo(name, e, st) ==
          ELSE IF n # 2 THEN Unspec(s1)
          ELSE LET lo == IF name = "range" THEN a.vs[1].n ELSE a.vs[1].n + 1
                   hi == IF name = "range" THEN a.vs[2].n ELSE a.vs[2].n - 1
-              IN Ok(Iter([i \in 1..(IF hi >= lo THEN hi - lo + 1 ELSE 0) |-> I(lo + i - 1)]), s1)
+              \* (a span too long to write down: its first 16 numbers, then a marker -- a loop that gets that far is not specified)
+              IN IF lo >= 0 /\ hi - lo >= 16 THEN Ok(Iter([i \in 1..17 |-> IF i = 17 THEN [t |-> "endless"] ELSE I(lo + i - 1)]), s1)
+                 ELSE Ok(Iter([i \in 1..(IF hi >= lo THEN hi - lo + 1 ELSE 0) |-> I(lo + i - 1)]), s1)
     [] name \in {"blk", "blks"} ->   \* block helper: what its block renders to, in the caller's scope
          IF n # 0 \/ e.blk = NoBlock THEN Unspec(s1) ELSE RunBlockAsHTML(e.blk, s1, name = "blks", FALSE)
     [] name = "blkown" ->            \* block helper that runs its block in a child scope with data
